@@ -427,4 +427,853 @@ theorem regionIndex_spec (A : List Bool) (reg : Arr Int) (r : Int) (hl : reg.len
       · simp [h2] at ha'
     · simp [h1] at ha
 
+/-! ## stores, fresh arrays, validity: commutation with `compress` -/
+
+theorem sget_smap {β γ : Type} (f : β → γ) (s : List (String × β)) (k : String) :
+    sget (smap f s) k = (sget s k).map f := by
+  induction s with
+  | nil => rfl
+  | cons p r ih =>
+    obtain ⟨k', v⟩ := p
+    simp only [smap, List.map_cons, sget]
+    by_cases h : k' = k
+    · simp [h]
+    · simp only [h, if_false]
+      exact ih
+
+theorem smap_sput {β γ : Type} (f : β → γ) (s : List (String × β)) (k : String) (v : β) :
+    smap f (sput s k v) = sput (smap f s) k (f v) := by
+  induction s with
+  | nil => rfl
+  | cons p r ih =>
+    obtain ⟨k', v'⟩ := p
+    simp only [sput, smap, List.map_cons]
+    by_cases h : k' = k
+    · simp [h]
+    · simp only [h, if_false, List.map_cons]
+      congr 1
+
+theorem smap_serase {β γ : Type} (f : β → γ) (s : List (String × β)) (k : String) :
+    smap f (serase s k) = serase (smap f s) k := by
+  induction s with
+  | nil => rfl
+  | cons p r ih =>
+    obtain ⟨k', v'⟩ := p
+    simp only [serase, smap, List.map_cons]
+    by_cases h : k' = k
+    · simp [h]
+    · simp only [h, if_false, List.map_cons]
+      congr 1
+
+theorem mem_of_sget {β : Type} (s : List (String × β)) (k : String) (v : β) (h : sget s k = some v) :
+    (k, v) ∈ s := by
+  induction s with
+  | nil => cases h
+  | cons p r ih =>
+    obtain ⟨k', v'⟩ := p
+    simp only [sget] at h
+    by_cases hk : k' = k
+    · simp only [hk, if_true, Option.some.injEq] at h
+      simp [hk, h]
+    · simp only [hk, if_false] at h
+      exact List.mem_cons_of_mem _ (ih h)
+
+theorem mem_sput {β : Type} (s : List (String × β)) (k : String) (v : β) (p : String × β)
+    (h : p ∈ sput s k v) : p ∈ s ∨ p = (k, v) := by
+  induction s with
+  | nil => simp [sput] at h; exact Or.inr h
+  | cons q r ih =>
+    obtain ⟨k', v'⟩ := q
+    simp only [sput] at h
+    by_cases hk : k' = k
+    · simp only [hk, if_true, List.mem_cons] at h
+      rcases h with h | h
+      · exact Or.inr h
+      · exact Or.inl (List.mem_cons_of_mem _ h)
+    · simp only [hk, if_false, List.mem_cons] at h
+      rcases h with h | h
+      · exact Or.inl (by simp [h])
+      · rcases ih h with h' | h'
+        · exact Or.inl (List.mem_cons_of_mem _ h')
+        · exact Or.inr h'
+
+theorem mem_serase {β : Type} (s : List (String × β)) (k : String) (p : String × β)
+    (h : p ∈ serase s k) : p ∈ s := by
+  induction s with
+  | nil => cases h
+  | cons q r ih =>
+    obtain ⟨k', v'⟩ := q
+    simp only [serase] at h
+    by_cases hk : k' = k
+    · simp only [hk, if_true] at h
+      exact List.mem_cons_of_mem _ h
+    · simp only [hk, if_false, List.mem_cons] at h
+      rcases h with h | h
+      · simp [h]
+      · exact List.mem_cons_of_mem _ (ih h)
+
+theorem compress_replicate {β : Type} (A : List Bool) (c : β) :
+    compress A (List.replicate A.length c) = List.replicate (nactive A) c := by
+  induction A with
+  | nil => rfl
+  | cons b bs ih =>
+    cases b
+    · simp [compress, nactive, List.replicate_succ, ih]
+    · simp [compress, nactive, List.replicate_succ, ih]
+
+theorem allActive_compress {β : Type} (A : List Bool) (p : Cell β → Bool) (x : Arr β)
+    (hx : x.length = A.length) : allActive A p x = (compress A x).all p := by
+  induction A generalizing x with
+  | nil =>
+    cases x with
+    | nil => rfl
+    | cons y ys => simp at hx
+  | cons b bs ih =>
+    cases x with
+    | nil => simp at hx
+    | cons y ys =>
+      simp at hx
+      cases b
+      · simp [allActive, compress, ih ys hx]
+      · simp [allActive, compress, ih ys hx]
+
+theorem compress_map {β γ : Type} (f : β → γ) (A : List Bool) (x : List β) :
+    compress A (x.map f) = (compress A x).map f := by
+  induction A generalizing x with
+  | nil => simp [compress]
+  | cons b bs ih =>
+    cases x with
+    | nil => simp [compress]
+    | cons y ys =>
+      cases b
+      · simp [compress, ih]
+      · simp [compress, ih]
+
+theorem compress_zipWith {β γ δ : Type} (f : β → γ → δ) (A : List Bool) (x : List β) (y : List γ) :
+    compress A (List.zipWith f x y) = List.zipWith f (compress A x) (compress A y) := by
+  induction A generalizing x y with
+  | nil => simp [compress]
+  | cons b bs ih =>
+    cases x with
+    | nil => simp [compress]
+    | cons x0 xs =>
+      cases y with
+      | nil =>
+        cases b <;> simp [compress]
+      | cons y0 ys =>
+        cases b
+        · simp [compress, ih]
+        · simp [compress, ih]
+
+/-! ## states: well-formedness, the abstraction function, primitives -/
+
+def WFStore {β : Type} (n : Nat) (st : List (String × List β)) : Prop := ∀ p ∈ st, p.2.length = n
+
+/-- reference states: every array covers the global grid -/
+structure WF {α : Type} (D : Dims) (s : St α) : Prop where
+  act : s.act.length = D.size
+  ints : WFStore D.size s.ints
+  dbls : WFStore D.size s.dbls
+
+/-- the abstraction function on states: compress every array with the current ACTNUM -/
+def cSt {α : Type} (s : St α) : St α :=
+  ⟨s.act, smap (compress s.act) s.ints, smap (compress s.act) s.dbls⟩
+
+def cPair {α : Type} (p : St α × Box) : St α × Box := (cSt p.1, p.2)
+
+def DPos (D : Dims) : Prop := 0 < D.nx ∧ 0 < D.ny ∧ 0 < D.nz
+
+theorem wfstore_sget {β : Type} {n : Nat} {st : List (String × List β)} (h : WFStore n st) {k : String}
+    {x : List β} (hx : sget st k = some x) : x.length = n :=
+  h _ (mem_of_sget st k x hx)
+
+theorem wfstore_sput {β : Type} {n : Nat} {st : List (String × List β)} (h : WFStore n st) (k : String)
+    (x : List β) (hx : x.length = n) : WFStore n (sput st k x) := by
+  intro p hp
+  rcases mem_sput st k x p hp with h' | h'
+  · exact h p h'
+  · rw [h']; exact hx
+
+theorem wfstore_serase {β : Type} {n : Nat} {st : List (String × List β)} (h : WFStore n st) (k : String) :
+    WFStore n (serase st k) := fun p hp => h p (mem_serase st k p hp)
+
+section Prim
+variable {α : Type} [RealOps α]
+
+theorem fresh_length {β : Type} [Scalar β] (D : Dims) (A : List Bool) (init : Option β) :
+    (fresh .ref D A init).length = D.size := by simp [fresh, arrSize]
+
+theorem fresh_compress {β : Type} [Scalar β] (D : Dims) (A : List Bool) (init : Option β)
+    (hA : A.length = D.size) : compress A (fresh .ref D A init) = fresh .impl D A init := by
+  simp only [fresh, arrSize]
+  rw [← hA, compress_replicate]
+
+theorem getD_act (m : Mode) (D : Dims) (s : St α) (kw : String) (info : DInfo α) :
+    (getD m D s kw info).1.act = s.act := by
+  unfold getD; split <;> rfl
+
+theorem getI_act (m : Mode) (D : Dims) (s : St α) (kw : String) (init : Option Int) :
+    (getI m D s kw init).1.act = s.act := by
+  unfold getI; split <;> rfl
+
+theorem getD_wf (D : Dims) (s : St α) (kw : String) (info : DInfo α) (hw : WF D s) :
+    WF D (getD .ref D s kw info).1 ∧ (getD .ref D s kw info).2.length = D.size := by
+  unfold getD
+  cases h : sget s.dbls kw with
+  | some x => exact ⟨hw, wfstore_sget hw.dbls h⟩
+  | none =>
+    exact ⟨⟨hw.act, hw.ints, wfstore_sput hw.dbls _ _ (fresh_length ..)⟩, fresh_length ..⟩
+
+theorem getI_wf (D : Dims) (s : St α) (kw : String) (init : Option Int) (hw : WF D s) :
+    WF D (getI .ref D s kw init).1 ∧ (getI .ref D s kw init).2.length = D.size := by
+  unfold getI
+  cases h : sget s.ints kw with
+  | some x => exact ⟨hw, wfstore_sget hw.ints h⟩
+  | none =>
+    exact ⟨⟨hw.act, wfstore_sput hw.ints _ _ (fresh_length ..), hw.dbls⟩, fresh_length ..⟩
+
+theorem getD_impl (D : Dims) (s : St α) (kw : String) (info : DInfo α) (hw : WF D s) :
+    getD .impl D (cSt s) kw info =
+      (cSt (getD .ref D s kw info).1, compress s.act (getD .ref D s kw info).2) := by
+  unfold getD
+  simp only [cSt, sget_smap]
+  cases h : sget s.dbls kw with
+  | some x => rfl
+  | none =>
+    simp only [Option.map_none, smap_sput, fresh_compress D s.act info.init hw.act]
+
+theorem getI_impl (D : Dims) (s : St α) (kw : String) (init : Option Int) (hw : WF D s) :
+    getI .impl D (cSt s) kw init =
+      (cSt (getI .ref D s kw init).1, compress s.act (getI .ref D s kw init).2) := by
+  unfold getI
+  simp only [cSt, sget_smap]
+  cases h : sget s.ints kw with
+  | some x => rfl
+  | none =>
+    simp only [Option.map_none, smap_sput, fresh_compress D s.act init hw.act]
+
+theorem cSt_putD (s : St α) (kw : String) (y : Arr α) :
+    cSt (putD s kw y) = putD (cSt s) kw (compress s.act y) := by
+  simp [cSt, putD, smap_sput]
+
+theorem cSt_putI (s : St α) (kw : String) (y : Arr Int) :
+    cSt (putI s kw y) = putI (cSt s) kw (compress s.act y) := by
+  simp [cSt, putI, smap_sput]
+
+theorem putD_wf (D : Dims) (s : St α) (kw : String) (y : Arr α) (hw : WF D s) (hy : y.length = D.size) :
+    WF D (putD s kw y) := ⟨hw.act, hw.ints, wfstore_sput hw.dbls _ _ hy⟩
+
+theorem putI_wf (D : Dims) (s : St α) (kw : String) (y : Arr Int) (hw : WF D s) (hy : y.length = D.size) :
+    WF D (putI s kw y) := ⟨hw.act, wfstore_sput hw.ints _ _ hy, hw.dbls⟩
+
+theorem refApply_length {β : Type} [Scalar β] (K : Kernel β) (A : List Bool) (sel : Nat → Option Nat)
+    (src tgt y : Arr β) (h : refApply K A sel src tgt = some y) : y.length = tgt.length := by
+  unfold refApply at h
+  split at h
+  · cases h
+  · cases h; simp
+
+theorem boxApply_ref_length {β : Type} [Scalar β] (D : Dims) (A : List Bool) (K : Kernel β) (b : Box)
+    (src tgt y : Arr β) (h : boxApply .ref D A K b src tgt = some y) : y.length = tgt.length :=
+  refApply_length K A _ src tgt y h
+
+theorem regApply_ref_length {β : Type} [Scalar β] (A : List Bool) (K : Kernel β) (reg : Arr Int) (r : Int)
+    (src tgt y : Arr β) (h : regApply .ref A K reg r src tgt = some y) : y.length = tgt.length :=
+  refApply_length K A _ src tgt y h
+
+/-- **`op_refines`, box form**: an operation over a box on active-only arrays is the
+compression of the operation over the box on the global grid. -/
+theorem boxApply_impl {β : Type} [Scalar β] (D : Dims) (A : List Bool) (K : Kernel β) (b : Box)
+    (hv : b.Valid D) (src tgt : Arr β) (hs : src.length = A.length) (ht : tgt.length = A.length) :
+    boxApply .impl D A K b (compress A src) (compress A tgt) =
+      (boxApply .ref D A K b src tgt).map (compress A) :=
+  (apply_refines K A (boxSel D b) (indexList D A b) (indexList_spec D A b hv) src tgt hs ht).symm
+
+/-- **`op_refines`, region form** -/
+theorem regApply_impl {β : Type} [Scalar β] (A : List Bool) (K : Kernel β) (reg : Arr Int) (r : Int)
+    (hr : reg.length = A.length) (src tgt : Arr β) (hs : src.length = A.length) (ht : tgt.length = A.length) :
+    regApply .impl A K (compress A reg) r (compress A src) (compress A tgt) =
+      (regApply .ref A K reg r src tgt).map (compress A) :=
+  (apply_refines K A (regionSel reg r) _ (regionIndex_spec A reg r hr) src tgt hs ht).symm
+
+theorem validArr_impl {β : Type} (A : List Bool) (x : Arr β) (hx : x.length = A.length) :
+    validArr .impl A (compress A x) = validArr .ref A x := by
+  simp [validArr, allActive_compress A _ x hx]
+
+theorem regEmpty_impl (A : List Bool) (reg : Arr Int) (r : Int) (hx : reg.length = A.length) :
+    regEmpty .impl A (compress A reg) r = regEmpty .ref A reg r := by
+  simp [regEmpty, allActive_compress A _ reg hx]
+
+/-! ### boxes -/
+
+theorem init_valid (D : Dims) (i1 i2 j1 j2 k1 k2 : Int) (b : Box)
+    (h : Box.init D i1 i2 j1 j2 k1 k2 = some b) : b.Valid D := by
+  unfold Box.init at h
+  split at h
+  · rename_i hc
+    simp only [assertDims, Bool.and_eq_true, decide_eq_true_eq] at hc
+    cases h
+    simp only [Box.Valid]
+    omega
+  · cases h
+
+theorem update_valid (D : Dims) (b b' : Box) (r : BoxItems) (hb : b.Valid D)
+    (h : Box.update D b r = some b') : b'.Valid D := by
+  unfold Box.update at h
+  split at h
+  · cases h; exact hb
+  · exact init_valid D _ _ _ _ _ _ b' h
+
+theorem global_valid (D : Dims) (hD : DPos D) : (Box.global D).Valid D := by
+  obtain ⟨h1, h2, h3⟩ := hD
+  simp only [Box.Valid, Box.global]
+  omega
+
+end Prim
+
+section Handlers
+variable {α : Type} [RealOps α]
+
+/-! ## the record handlers refine -/
+
+theorem tail_boxD (D : Dims) (s : St α) (hw : WF D s) (name : String) (K : Kernel α) (b b2 : Box)
+    (hb : b.Valid D) (hb2 : b2.Valid D) (src tgt : Arr α) (hs : src.length = D.size) (ht : tgt.length = D.size) :
+    ((boxApply .ref D s.act K b src tgt).map fun y => (putD s name y, b2)).map cPair =
+      ((boxApply .impl D s.act K b (compress s.act src) (compress s.act tgt)).map
+        fun y => (putD (cSt s) name y, b2)) ∧
+    ∀ q, ((boxApply .ref D s.act K b src tgt).map fun y => (putD s name y, b2)) = some q →
+      WF D q.1 ∧ q.2.Valid D := by
+  rw [boxApply_impl D _ K b hb src tgt (by rw [hs, hw.act]) (by rw [ht, hw.act])]
+  cases hap : boxApply .ref D s.act K b src tgt with
+  | none => simp
+  | some y =>
+    have hy := boxApply_ref_length _ _ _ _ _ _ _ hap
+    simp only [Option.map_some, cPair, cSt_putD]
+    refine ⟨trivial, fun q hq => ?_⟩
+    cases hq
+    exact ⟨putD_wf D _ _ _ hw (by rw [hy, ht]), hb2⟩
+
+theorem tail_boxI (D : Dims) (s : St α) (hw : WF D s) (name : String) (K : Kernel Int) (b b2 : Box)
+    (hb : b.Valid D) (hb2 : b2.Valid D) (src tgt : Arr Int) (hs : src.length = D.size) (ht : tgt.length = D.size) :
+    ((boxApply .ref D s.act K b src tgt).map fun y => (putI s name y, b2)).map cPair =
+      ((boxApply .impl D s.act K b (compress s.act src) (compress s.act tgt)).map
+        fun y => (putI (cSt s) name y, b2)) ∧
+    ∀ q, ((boxApply .ref D s.act K b src tgt).map fun y => (putI s name y, b2)) = some q →
+      WF D q.1 ∧ q.2.Valid D := by
+  rw [boxApply_impl D _ K b hb src tgt (by rw [hs, hw.act]) (by rw [ht, hw.act])]
+  cases hap : boxApply .ref D s.act K b src tgt with
+  | none => simp
+  | some y =>
+    have hy := boxApply_ref_length _ _ _ _ _ _ _ hap
+    simp only [Option.map_some, cPair, cSt_putI]
+    refine ⟨trivial, fun q hq => ?_⟩
+    cases hq
+    exact ⟨putI_wf D _ _ _ hw (by rw [hy, ht]), hb2⟩
+
+theorem tail_regD (D : Dims) (s : St α) (hw : WF D s) (name : String) (K : Kernel α) (reg : Arr Int) (r : Int)
+    (hr : reg.length = D.size) (src tgt : Arr α) (hs : src.length = D.size) (ht : tgt.length = D.size) :
+    ((regApply .ref s.act K reg r src tgt).map fun y => putD s name y).map cSt =
+      ((regApply .impl s.act K (compress s.act reg) r (compress s.act src) (compress s.act tgt)).map
+        fun y => putD (cSt s) name y) ∧
+    ∀ q, ((regApply .ref s.act K reg r src tgt).map fun y => putD s name y) = some q → WF D q := by
+  rw [regApply_impl _ K reg r (by rw [hr, hw.act]) src tgt (by rw [hs, hw.act]) (by rw [ht, hw.act])]
+  cases hap : regApply .ref s.act K reg r src tgt with
+  | none => simp
+  | some y =>
+    have hy := regApply_ref_length _ _ _ _ _ _ _ hap
+    simp only [Option.map_some, cSt_putD]
+    refine ⟨trivial, fun q hq => ?_⟩
+    cases hq
+    exact putD_wf D _ _ _ hw (by rw [hy, ht])
+
+theorem tail_regI (D : Dims) (s : St α) (hw : WF D s) (name : String) (K : Kernel Int) (reg : Arr Int) (r : Int)
+    (hr : reg.length = D.size) (src tgt : Arr Int) (hs : src.length = D.size) (ht : tgt.length = D.size) :
+    ((regApply .ref s.act K reg r src tgt).map fun y => putI s name y).map cSt =
+      ((regApply .impl s.act K (compress s.act reg) r (compress s.act src) (compress s.act tgt)).map
+        fun y => putI (cSt s) name y) ∧
+    ∀ q, ((regApply .ref s.act K reg r src tgt).map fun y => putI s name y) = some q → WF D q := by
+  rw [regApply_impl _ K reg r (by rw [hr, hw.act]) src tgt (by rw [hs, hw.act]) (by rw [ht, hw.act])]
+  cases hap : regApply .ref s.act K reg r src tgt with
+  | none => simp
+  | some y =>
+    have hy := regApply_ref_length _ _ _ _ _ _ _ hap
+    simp only [Option.map_some, cSt_putI]
+    refine ⟨trivial, fun q hq => ?_⟩
+    cases hq
+    exact putI_wf D _ _ _ hw (by rw [hy, ht])
+
+theorem scalarRec_refines (D : Dims) (T : Tables α) (sec : Section) (op : ScalarOp) (s : St α) (b : Box)
+    (hw : WF D s) (hb : b.Valid D) (r : ScalarRec α) :
+    (scalarRec .ref D T sec op (s, b) r).map cPair = scalarRec .impl D T sec op (cSt s, b) r ∧
+    ∀ q, scalarRec .ref D T sec op (s, b) r = some q → WF D q.1 ∧ q.2.Valid D := by
+  unfold scalarRec
+  simp only []
+  cases hbu : Box.update D b r.box with
+  | none => simp
+  | some b' =>
+    have hb' := update_valid D b b' r.box hb hbu
+    simp only []
+    cases hd : sget T.dbl r.kw with
+    | some info =>
+      simp only []
+      have e1 : (sget (cSt s).dbls r.kw).isNone = (sget s.dbls r.kw).isNone := by
+        simp [cSt, sget_smap]
+      rw [e1]
+      split
+      · simp
+      · obtain ⟨hw1, hl1⟩ := getD_wf D s (editName sec info r.kw) info hw
+        have ha1 := getD_act .ref D s (editName sec info r.kw) info
+        have hg := getD_impl D s (editName sec info r.kw) info hw
+        generalize getD .ref D s (editName sec info r.kw) info = p at *
+        rw [hg]
+        simp only []
+        rw [← ha1]
+        exact tail_boxD D p.1 hw1 _ _ b' b' hb' hb' p.2 p.2 hl1 hl1
+    | none =>
+      simp only []
+      cases hi : sget T.int r.kw with
+      | none => simp
+      | some init =>
+        simp only []
+        have e1 : (sget (cSt s).ints r.kw).isNone = (sget s.ints r.kw).isNone := by
+          simp [cSt, sget_smap]
+        rw [e1]
+        split
+        · simp
+        · obtain ⟨hw1, hl1⟩ := getI_wf D s r.kw init hw
+          have ha1 := getI_act .ref D s r.kw init
+          have hg := getI_impl D s r.kw init hw
+          generalize getI .ref D s r.kw init = p at *
+          rw [hg]
+          simp only []
+          rw [← ha1]
+          exact tail_boxI D p.1 hw1 _ _ b' b' hb' hb' p.2 p.2 hl1 hl1
+
+
+theorem cSt_dbls_get (s : St α) (k : String) :
+    sget (cSt s).dbls k = (sget s.dbls k).map (compress s.act) := by simp [cSt, sget_smap]
+theorem cSt_ints_get (s : St α) (k : String) :
+    sget (cSt s).ints k = (sget s.ints k).map (compress s.act) := by simp [cSt, sget_smap]
+
+theorem copyRec_refines (D : Dims) (T : Tables α) (s : St α) (b : Box)
+    (hw : WF D s) (hb : b.Valid D) (r : CopyRec) :
+    (copyRec .ref D T (s, b) r).map cPair = copyRec .impl D T (cSt s, b) r ∧
+    ∀ q, copyRec .ref D T (s, b) r = some q → WF D q.1 ∧ q.2.Valid D := by
+  unfold copyRec
+  simp only []
+  cases hbu : Box.update D b r.box with
+  | none => simp
+  | some b' =>
+    have hb' := update_valid D b b' r.box hb hbu
+    simp only []
+    cases hd : sget T.dbl r.src with
+    | some _ =>
+      simp only []
+      rw [cSt_dbls_get]
+      cases hsrc : sget s.dbls r.src with
+      | none => simp
+      | some src =>
+        have hls := wfstore_sget hw.dbls hsrc
+        simp only [Option.map_some]
+        have hact : (cSt s).act = s.act := rfl
+        rw [hact, validArr_impl s.act src (by rw [hls, hw.act])]
+        split
+        · simp
+        · cases ht : sget T.dbl r.tgt with
+          | none => simp
+          | some tinfo =>
+            simp only []
+            obtain ⟨hw1, hl1⟩ := getD_wf D s r.tgt tinfo hw
+            have ha1 := getD_act .ref D s r.tgt tinfo
+            have hg := getD_impl D s r.tgt tinfo hw
+            generalize getD .ref D s r.tgt tinfo = p at *
+            rw [hg]
+            simp only []
+            rw [← ha1]
+            exact tail_boxD D p.1 hw1 _ _ b' b' hb' hb' src p.2 hls hl1
+    | none =>
+      simp only []
+      cases hi : sget T.int r.src with
+      | some _ =>
+        simp only []
+        rw [cSt_ints_get]
+        cases hsrc : sget s.ints r.src with
+        | none => simp
+        | some src =>
+          have hls := wfstore_sget hw.ints hsrc
+          simp only [Option.map_some]
+          have hact : (cSt s).act = s.act := rfl
+          rw [hact, validArr_impl s.act src (by rw [hls, hw.act])]
+          split
+          · simp
+          · cases ht : sget T.int r.tgt with
+            | none => simp
+            | some tinit =>
+              simp only []
+              obtain ⟨hw1, hl1⟩ := getI_wf D s r.tgt tinit hw
+              have ha1 := getI_act .ref D s r.tgt tinit
+              have hg := getI_impl D s r.tgt tinit hw
+              generalize getI .ref D s r.tgt tinit = p at *
+              rw [hg]
+              simp only []
+              rw [← ha1]
+              exact tail_boxI D p.1 hw1 _ _ b' b' hb' hb' src p.2 hls hl1
+      | none =>
+        simp only [Option.map_some, cPair]
+        exact ⟨trivial, fun q hq => by cases hq; exact ⟨hw, hb'⟩⟩
+
+theorem operRec_refines (D : Dims) (T : Tables α) (s : St α) (b : Box)
+    (hw : WF D s) (hb : b.Valid D) (r : OperRec α) :
+    (operRec .ref D T (s, b) r).map cPair = operRec .impl D T (cSt s, b) r ∧
+    ∀ q, operRec .ref D T (s, b) r = some q → WF D q.1 ∧ q.2.Valid D := by
+  unfold operRec
+  simp only []
+  cases hbu : Box.update D b r.box with
+  | none => simp
+  | some b' =>
+    have hb' := update_valid D b b' r.box hb hbu
+    simp only []
+    cases ht : sget T.dbl r.tgt with
+    | none => simp
+    | some tinfo =>
+      simp only []
+      obtain ⟨hw1, hl1⟩ := getD_wf D s r.tgt tinfo hw
+      have ha1 := getD_act .ref D s r.tgt tinfo
+      have hg := getD_impl D s r.tgt tinfo hw
+      generalize getD .ref D s r.tgt tinfo = p at *
+      rw [hg]
+      simp only []
+      cases hs : sget T.dbl r.src with
+      | none => simp
+      | some sinfo =>
+        simp only []
+        obtain ⟨hw2, hl2⟩ := getD_wf D p.1 r.src sinfo hw1
+        have ha2 := getD_act .ref D p.1 r.src sinfo
+        have hg2 := getD_impl D p.1 r.src sinfo hw1
+        generalize getD .ref D p.1 r.src sinfo = q at *
+        rw [hg2]
+        simp only []
+        cases hf : operateFn r.fn (operAlpha r.fn tinfo r.a) (operBeta r.fn tinfo r.b) with
+        | none => simp
+        | some f =>
+          simp only []
+          rw [← ha1, ← ha2]
+          exact tail_boxD D q.1 hw2 _ _ b' b' hb' hb' q.2 p.2 hl2 hl1
+
+theorem regionArr_refines (D : Dims) (T : Tables α) (s : St α) (hw : WF D s) (name : String) :
+    (regionArr .ref D T s name).map (fun q => (cSt q.1, compress s.act q.2)) = regionArr .impl D T (cSt s) name ∧
+    ∀ q, regionArr .ref D T s name = some q → WF D q.1 ∧ q.2.length = D.size ∧ q.1.act = s.act := by
+  unfold regionArr
+  cases hi : sget T.int name with
+  | none => simp
+  | some init =>
+    simp only []
+    obtain ⟨hw1, hl1⟩ := getI_wf D s name init hw
+    have ha1 := getI_act .ref D s name init
+    have hg := getI_impl D s name init hw
+    generalize getI .ref D s name init = p at *
+    rw [hg]
+    simp only []
+    have hact : (cSt p.1).act = p.1.act := rfl
+    rw [hact, ← ha1, validArr_impl p.1.act p.2 (by rw [hl1, hw1.act])]
+    split
+    · simp only [Option.map_some]
+      exact ⟨trivial, fun q hq => by cases hq; exact ⟨hw1, hl1, rfl⟩⟩
+    · simp
+
+theorem regScalarRec_refines (D : Dims) (T : Tables α) (op : ScalarOp) (s : St α)
+    (hw : WF D s) (r : RegScalarRec α) :
+    (regScalarRec .ref D T op s r).map cSt = regScalarRec .impl D T op (cSt s) r ∧
+    ∀ q, regScalarRec .ref D T op s r = some q → WF D q := by
+  unfold regScalarRec
+  cases hd : sget T.dbl r.kw with
+  | none =>
+    simp only [Option.map_some]
+    exact ⟨trivial, fun q hq => by cases hq; exact hw⟩
+  | some info =>
+    simp only []
+    obtain ⟨hw1, hl1⟩ := getD_wf D s r.kw info hw
+    have ha1 := getD_act .ref D s r.kw info
+    have hg := getD_impl D s r.kw info hw
+    generalize getD .ref D s r.kw info = p at *
+    rw [hg]
+    simp only []
+    cases hn : regionName r.rs with
+    | none => simp
+    | some rn =>
+      simp only []
+      obtain ⟨hr1, hr2⟩ := regionArr_refines D T p.1 hw1 rn
+      rw [← hr1]
+      cases hq : regionArr .ref D T p.1 rn with
+      | none => simp
+      | some q =>
+        obtain ⟨hw2, hl2, ha2⟩ := hr2 q hq
+        simp only [Option.map_some]
+        have hact : (cSt q.1).act = q.1.act := rfl
+        rw [hact, ← ha2, regEmpty_impl q.1.act q.2 r.rv (by rw [hl2, hw2.act])]
+        split
+        · simp only [Option.map_some]
+          exact ⟨trivial, fun q' hq' => by cases hq'; exact hw2⟩
+        · rw [← ha1, ← ha2]
+          exact tail_regD D q.1 hw2 _ _ q.2 r.rv hl2 p.2 p.2 hl1 hl1
+
+
+theorem copyRegRec_refines (D : Dims) (T : Tables α) (s : St α) (hw : WF D s) (r : CopyRegRec) :
+    (copyRegRec .ref D T s r).map cSt = copyRegRec .impl D T (cSt s) r ∧
+    ∀ q, copyRegRec .ref D T s r = some q → WF D q := by
+  unfold copyRegRec
+  cases hn : regionName r.rs with
+  | none => simp
+  | some rn =>
+    simp only []
+    obtain ⟨hr1, hr2⟩ := regionArr_refines D T s hw rn
+    rw [← hr1]
+    cases hq : regionArr .ref D T s rn with
+    | none => simp
+    | some q =>
+      obtain ⟨hw2, hl2, ha2⟩ := hr2 q hq
+      simp only [Option.map_some]
+      cases hd : sget T.dbl r.src with
+      | some _ =>
+        simp only []
+        rw [cSt_dbls_get]
+        cases hsrc : sget q.1.dbls r.src with
+        | none => simp
+        | some src =>
+          have hls := wfstore_sget hw2.dbls hsrc
+          simp only [Option.map_some]
+          have hact : (cSt q.1).act = q.1.act := rfl
+          rw [hact, validArr_impl q.1.act src (by rw [hls, hw2.act])]
+          split
+          · simp
+          · cases ht : sget T.dbl r.tgt with
+            | none => simp
+            | some tinfo =>
+              simp only []
+              obtain ⟨hw1, hl1⟩ := getD_wf D q.1 r.tgt tinfo hw2
+              have ha1 := getD_act .ref D q.1 r.tgt tinfo
+              have hg := getD_impl D q.1 r.tgt tinfo hw2
+              generalize getD .ref D q.1 r.tgt tinfo = p at *
+              rw [hg]
+              simp only []
+              rw [← ha2, ← ha1]
+              exact tail_regD D p.1 hw1 _ _ q.2 r.rv hl2 src p.2 hls hl1
+      | none =>
+        simp only []
+        cases hi : sget T.int r.src with
+        | some _ =>
+          simp only []
+          rw [cSt_ints_get]
+          cases hsrc : sget q.1.ints r.src with
+          | none => simp
+          | some src =>
+            have hls := wfstore_sget hw2.ints hsrc
+            simp only [Option.map_some]
+            have hact : (cSt q.1).act = q.1.act := rfl
+            rw [hact, validArr_impl q.1.act src (by rw [hls, hw2.act])]
+            split
+            · simp
+            · cases ht : sget T.int r.tgt with
+              | none => simp
+              | some tinit =>
+                simp only []
+                obtain ⟨hw1, hl1⟩ := getI_wf D q.1 r.tgt tinit hw2
+                have ha1 := getI_act .ref D q.1 r.tgt tinit
+                have hg := getI_impl D q.1 r.tgt tinit hw2
+                generalize getI .ref D q.1 r.tgt tinit = p at *
+                rw [hg]
+                simp only []
+                rw [← ha2, ← ha1]
+                exact tail_regI D p.1 hw1 _ _ q.2 r.rv hl2 src p.2 hls hl1
+        | none =>
+          simp only [Option.map_some]
+          exact ⟨trivial, fun q' hq' => by cases hq'; exact hw2⟩
+
+theorem operRegRec_refines (D : Dims) (T : Tables α) (s : St α) (hw : WF D s) (r : OperRegRec α) :
+    (operRegRec .ref D T s r).map cSt = operRegRec .impl D T (cSt s) r ∧
+    ∀ q, operRegRec .ref D T s r = some q → WF D q := by
+  unfold operRegRec
+  cases hd : sget T.dbl r.tgt with
+  | none =>
+    simp only [Option.map_some]
+    exact ⟨trivial, fun q hq => by cases hq; exact hw⟩
+  | some tinfo =>
+    simp only []
+    obtain ⟨hw1, hl1⟩ := getD_wf D s r.tgt tinfo hw
+    have ha1 := getD_act .ref D s r.tgt tinfo
+    have hg := getD_impl D s r.tgt tinfo hw
+    generalize getD .ref D s r.tgt tinfo = p at *
+    rw [hg]
+    simp only []
+    obtain ⟨hr1, hr2⟩ := regionArr_refines D T p.1 hw1 r.rn
+    rw [← hr1]
+    cases hq : regionArr .ref D T p.1 r.rn with
+    | none => simp
+    | some q =>
+      obtain ⟨hw2, hl2, ha2⟩ := hr2 q hq
+      simp only [Option.map_some]
+      have hact : (cSt q.1).act = q.1.act := rfl
+      rw [hact, ← ha2, regEmpty_impl q.1.act q.2 r.rv (by rw [hl2, hw2.act])]
+      split
+      · simp only [Option.map_some]
+        exact ⟨trivial, fun q' hq' => by cases hq'; exact hw2⟩
+      · cases hs : sget T.dbl r.src with
+        | none => simp
+        | some sinfo =>
+          simp only []
+          obtain ⟨hw3, hl3⟩ := getD_wf D q.1 r.src sinfo hw2
+          have ha3 := getD_act .ref D q.1 r.src sinfo
+          have hg3 := getD_impl D q.1 r.src sinfo hw2
+          generalize getD .ref D q.1 r.src sinfo = u at *
+          rw [hg3]
+          simp only []
+          cases hf : operateFn r.fn (operAlpha r.fn tinfo r.a) (operBeta r.fn tinfo r.b) with
+          | none => simp
+          | some f =>
+            simp only []
+            rw [← ha1, ← ha2, ← ha3]
+            exact tail_regD D u.1 hw3 _ _ q.2 r.rv hl2 u.2 p.2 hl3 hl1
+
+/-! ## keywords, sections -/
+
+theorem foldRecs_refines {σ ρ : Type} (f g : σ → ρ → Option σ) (c : σ → σ) (I : σ → Prop)
+    (h : ∀ s r, I s → (f s r).map c = g (c s) r ∧ ∀ q, f s r = some q → I q) :
+    ∀ (rs : List ρ) (s : σ), I s →
+      (foldRecs f s rs).map c = foldRecs g (c s) rs ∧ ∀ q, foldRecs f s rs = some q → I q := by
+  intro rs
+  induction rs with
+  | nil =>
+    intro s hs
+    simp only [foldRecs, Option.map_some]
+    exact ⟨trivial, fun q hq => by cases hq; exact hs⟩
+  | cons r rs ih =>
+    intro s hs
+    obtain ⟨h1, h2⟩ := h s r hs
+    simp only [foldRecs]
+    rw [← h1]
+    cases hf : f s r with
+    | none => simp
+    | some s' =>
+      simp only [Option.map_some]
+      exact ih s' (h2 s' hf)
+
+def PairOK (D : Dims) (p : St α × Box) : Prop := WF D p.1 ∧ p.2.Valid D
+
+theorem kwStep_refines (D : Dims) (hD : DPos D) (T : Tables α) (sec : Section) (p : St α × Box)
+    (hp : PairOK D p) (k : Kw α) :
+    (kwStep .ref D T sec p k).map cPair = kwStep .impl D T sec (cPair p) k ∧
+    ∀ q, kwStep .ref D T sec p k = some q → PairOK D q := by
+  obtain ⟨s, b⟩ := p
+  obtain ⟨hw, hb⟩ := hp
+  show (kwStep .ref D T sec (s, b) k).map cPair = kwStep .impl D T sec (cSt s, b) k ∧ _
+  cases k with
+  | box r =>
+    simp only [kwStep]
+    cases hbu : Box.update D b r with
+    | none => simp
+    | some b' =>
+      simp only [Option.map_some]
+      exact ⟨by first | trivial | rfl, fun q hq => by cases hq; exact ⟨hw, update_valid D b b' r hb hbu⟩⟩
+  | endbox =>
+    simp only [kwStep, Option.map_some]
+    exact ⟨by first | trivial | rfl, fun q hq => by cases hq; exact ⟨hw, global_valid D hD⟩⟩
+  | dataD kw vals =>
+    simp only [kwStep]
+    cases hd : sget T.dbl kw with
+    | none => simp
+    | some info =>
+      simp only []
+      obtain ⟨hw1, hl1⟩ := getD_wf D s (editName sec info kw) info hw
+      have ha1 := getD_act .ref D s (editName sec info kw) info
+      have hg := getD_impl D s (editName sec info kw) info hw
+      generalize getD .ref D s (editName sec info kw) info = p at *
+      rw [hg]
+      simp only []
+      by_cases hlen : vals.length ≠ b.size
+      · rw [if_pos hlen, if_pos hlen]; simp
+      · rw [if_neg hlen, if_neg hlen, ← ha1]
+        exact tail_boxD D p.1 hw1 _ _ b b hb hb p.2 p.2 hl1 hl1
+  | dataI kw vals =>
+    simp only [kwStep]
+    cases hd : sget T.int kw with
+    | none => simp
+    | some init =>
+      simp only []
+      obtain ⟨hw1, hl1⟩ := getI_wf D s kw init hw
+      have ha1 := getI_act .ref D s kw init
+      have hg := getI_impl D s kw init hw
+      generalize getI .ref D s kw init = p at *
+      rw [hg]
+      simp only []
+      by_cases hlen : vals.length ≠ b.size
+      · rw [if_pos hlen, if_pos hlen]; simp
+      · rw [if_neg hlen, if_neg hlen, ← ha1]
+        exact tail_boxI D p.1 hw1 _ _ b b hb hb p.2 p.2 hl1 hl1
+  | scalar op recs =>
+    simp only [kwStep]
+    obtain ⟨h1, h2⟩ := foldRecs_refines (scalarRec .ref D T sec op) (scalarRec .impl D T sec op) cPair (PairOK D)
+      (fun p r hp => scalarRec_refines D T sec op p.1 p.2 hp.1 hp.2 r) recs (s, b) ⟨hw, hb⟩
+    change _ = foldRecs _ (cSt s, b) recs at h1
+    rw [← h1]
+    cases hf : foldRecs (scalarRec .ref D T sec op) (s, b) recs with
+    | none => simp
+    | some q =>
+      simp only [Option.map_some]
+      exact ⟨by first | trivial | rfl, fun q' hq' => by cases hq'; exact ⟨(h2 q hf).1, hb⟩⟩
+  | copy recs =>
+    simp only [kwStep]
+    obtain ⟨h1, h2⟩ := foldRecs_refines (copyRec .ref D T) (copyRec .impl D T) cPair (PairOK D)
+      (fun p r hp => copyRec_refines D T p.1 p.2 hp.1 hp.2 r) recs (s, b) ⟨hw, hb⟩
+    change _ = foldRecs _ (cSt s, b) recs at h1
+    rw [← h1]
+    cases hf : foldRecs (copyRec .ref D T) (s, b) recs with
+    | none => simp
+    | some q =>
+      simp only [Option.map_some]
+      exact ⟨by first | trivial | rfl, fun q' hq' => by cases hq'; exact ⟨(h2 q hf).1, hb⟩⟩
+  | operate recs =>
+    simp only [kwStep]
+    obtain ⟨h1, h2⟩ := foldRecs_refines (operRec .ref D T) (operRec .impl D T) cPair (PairOK D)
+      (fun p r hp => operRec_refines D T p.1 p.2 hp.1 hp.2 r) recs (s, b) ⟨hw, hb⟩
+    change _ = foldRecs _ (cSt s, b) recs at h1
+    rw [← h1]
+    cases hf : foldRecs (operRec .ref D T) (s, b) recs with
+    | none => simp
+    | some q =>
+      simp only [Option.map_some]
+      exact ⟨by first | trivial | rfl, fun q' hq' => by cases hq'; exact ⟨(h2 q hf).1, hb⟩⟩
+  | regScalar op recs =>
+    simp only [kwStep]
+    obtain ⟨h1, h2⟩ := foldRecs_refines (regScalarRec .ref D T op) (regScalarRec .impl D T op) cSt (WF D)
+      (fun s r hs => regScalarRec_refines D T op s hs r) recs s hw
+    rw [← h1]
+    cases hf : foldRecs (regScalarRec .ref D T op) s recs with
+    | none => simp
+    | some q =>
+      simp only [Option.map_some]
+      exact ⟨by first | trivial | rfl, fun q' hq' => by cases hq'; exact ⟨h2 q hf, hb⟩⟩
+  | copyReg recs =>
+    simp only [kwStep]
+    obtain ⟨h1, h2⟩ := foldRecs_refines (copyRegRec .ref D T) (copyRegRec .impl D T) cSt (WF D)
+      (fun s r hs => copyRegRec_refines D T s hs r) recs s hw
+    rw [← h1]
+    cases hf : foldRecs (copyRegRec .ref D T) s recs with
+    | none => simp
+    | some q =>
+      simp only [Option.map_some]
+      exact ⟨by first | trivial | rfl, fun q' hq' => by cases hq'; exact ⟨h2 q hf, hb⟩⟩
+  | operateR recs =>
+    simp only [kwStep]
+    obtain ⟨h1, h2⟩ := foldRecs_refines (operRegRec .ref D T) (operRegRec .impl D T) cSt (WF D)
+      (fun s r hs => operRegRec_refines D T s hs r) recs s hw
+    rw [← h1]
+    cases hf : foldRecs (operRegRec .ref D T) s recs with
+    | none => simp
+    | some q =>
+      simp only [Option.map_some]
+      exact ⟨by first | trivial | rfl, fun q' hq' => by cases hq'; exact ⟨h2 q hf, hb⟩⟩
+
+
+end Handlers
+
 end OpmVerif.FieldProps
